@@ -108,15 +108,15 @@ Definition ordinal_ym1 (y m : Z) : Z := days_before_year y + days_before_month y
 Definition timegm (y mo d hh mi ss : Z) : Z :=
   let days := ordinal_ym1 y mo - 719163 + d - 1 in
   ((days * 24 + hh) * 60 + mi) * 60 + ss.
-(* parse_httpdate: years below 1970 get +2000; datetime.date raises ValueError / OverflowError outside 1..9999 /
-   1..12, which parse_httpdate catches and turns into None (repair of finding F18) *)
+(* parse_httpdate: the date is read as written (the old "+2000 for years below 1970" rule is gone, repair of C20-L4);
+   datetime.date raises ValueError / OverflowError outside 1..9999 / 1..12, which parse_httpdate catches and turns
+   into None (repair of F18) *)
 Definition parse_httpdate (i : imsval) : parsed :=
   match i with
   | ImsAbsent | ImsBad => PNone
   | ImsDate y mo d hh mi ss =>
-    let y' := if y <? 1970 then y + 2000 else y in
-    if (y' <? 1) || (9999 <? y') || (mo <? 1) || (12 <? mo) then PNone
-    else PSome (timegm y' mo d hh mi ss)
+    if (y <? 1) || (9999 <? y) || (mo <? 1) || (12 <? mo) then PNone
+    else PSome (timegm y mo d hh mi ss)
   end.
 
 (* ---- make_conditional --------------------------------------------------------------------------------- *)
@@ -334,3 +334,12 @@ Definition entry_eqb (a b : entry) : bool :=
 (* the two stores agree on every key of `keys` *)
 Definition store_agree (keys : list Z) (a b : store) : bool :=
   forallb (fun k => opt_eqb entry_eqb (lookup a k) (lookup b k)) keys.
+
+(* A request that has loaded tile k (fresh or stale) and then waits for the tile lock while other requests and writers
+   (`mid`) run.  Under the lock TileCreator re-checks TileManager.is_cached, which - with an expiry rule, file cache -
+   reads the metadata of what is stored NOW into the waiting request's Tile (load_tile_metadata), and the lazily
+   opened tile file delivers the bytes stored now; without an expiry rule a request for a stored tile never waits.
+   So the waiter answers like a request that starts when it gets the lock: *)
+Definition waiter (h : str -> str) (tps : Z) (max_age : option Z) (st_loaded : store) (mid : list event) (ev : event)
+  : store * option outcome :=
+  step h tps max_age (fst (run h tps max_age st_loaded mid)) ev.
